@@ -3,7 +3,11 @@
 // carry the same features, so that it generates the code it would generate alone. Functional monitor (no race
 // detector: the library's double-checked initialisation is intentionally lock-free); one fork()ed child per trial,
 // because host information can only be initialised once per process.
-// Output: {"trials":N,"threads_total":M,"mismatches":K,"first":"..."}
+// The same for the other lazily initialised process-wide values a first JIT object needs: VirtMem::info() (page size and
+// granularity), large_page_size(), what a JitAllocator derives from them (block size, granularity), and the first
+// dual-mapped block (anonymous-memory strategy, memfd flags, hardened-runtime detection): a thread that races with the
+// initialisation must not see half-initialised values, and its first dual-mapped allocation must work.
+// Output: {"trials":N,"threads_total":M,"mismatches":K,"first":"...","vm_values_compared":V,"dual_allocs":D}
 #include <asmjit/core.h>
 #include <asmjit/x86.h>
 #include "vcommon.h"
@@ -19,7 +23,27 @@ using namespace asmjit;
 static std::atomic<int> g_ready(0);
 static std::atomic<int> g_go(0);
 
-struct Seen { CpuFeatures direct; CpuFeatures runtime; uint32_t hints; Arch arch; };
+struct Seen {
+  CpuFeatures direct; CpuFeatures runtime; uint32_t hints; Arch arch;
+  uint32_t page_size, page_granularity, block_size, granularity; size_t large_page; uint32_t hardened;
+  int dual_state;   // 0 worked, 1 alloc failed, 2 contents wrong
+  int dual_err;
+};
+
+static int dual_roundtrip(int t, int* err) {
+  JitAllocator::CreateParams p;
+  p.options = JitAllocatorOptions::kUseDualMapping | JitAllocatorOptions::kFillUnusedMemory;
+  JitAllocator al(&p);
+  JitAllocator::Span s;
+  Error e = al.alloc(Out(s), 300);
+  *err = int(e);
+  if (e != Error::kOk) return 1;
+  uint8_t buf[300];
+  for (int i = 0; i < 300; i++) buf[i] = uint8_t(i * 7 + t);
+  if (al.write(s, 0, buf, 300) != Error::kOk || s.rx() == s.rw() || memcmp(s.rx(), buf, 300) != 0) return 2;
+  if (al.release(s.rx()) != Error::kOk) return 2;
+  return 0;
+}
 
 static int child(int nthreads, int stagger_mask) {
   std::vector<Seen> seen((size_t)nthreads);
@@ -33,8 +57,21 @@ static int child(int nthreads, int stagger_mask) {
       seen[size_t(t)].direct = ci.features();
       seen[size_t(t)].hints = uint32_t(ci.hints());
       seen[size_t(t)].arch = ci.arch();
+      Seen& me = seen[size_t(t)];
+      if ((stagger_mask >> t) & 2) {          // half of the threads touch the virtual-memory values first
+        VirtMem::Info vi0 = VirtMem::info();
+        me.page_size = vi0.page_size; me.page_granularity = vi0.page_granularity;
+      }
       JitRuntime rt;
-      seen[size_t(t)].runtime = rt.cpu_features();
+      me.runtime = rt.cpu_features();
+      VirtMem::Info vi = VirtMem::info();
+      if (!((stagger_mask >> t) & 2)) { me.page_size = vi.page_size; me.page_granularity = vi.page_granularity; }
+      else if (me.page_size != vi.page_size || me.page_granularity != vi.page_granularity) me.page_size = 0xBAD;
+      me.block_size = rt.allocator().block_size();
+      me.granularity = rt.allocator().granularity();
+      me.large_page = VirtMem::large_page_size();
+      me.hardened = uint32_t(VirtMem::hardened_runtime_info().flags);
+      me.dual_state = dual_roundtrip(t, &me.dual_err);
     });
   }
   while (g_ready.load() < nthreads) {}
@@ -46,6 +83,17 @@ static int child(int nthreads, int stagger_mask) {
     if (memcmp(&seen[size_t(t)].direct, &fin.features(), sizeof(CpuFeatures)) != 0 || seen[size_t(t)].hints != uint32_t(fin.hints()) || seen[size_t(t)].arch != fin.arch()) bad |= 1;
     if (memcmp(&seen[size_t(t)].runtime, &fin.features(), sizeof(CpuFeatures)) != 0) bad |= 2;
   }
+  // what a later (single-threaded) use sees
+  VirtMem::Info vfin = VirtMem::info();
+  JitAllocator afin;
+  int derr = 0;
+  int dfin = dual_roundtrip(99, &derr);
+  for (int t = 0; t < nthreads; t++) {
+    const Seen& me = seen[size_t(t)];
+    if (me.page_size != vfin.page_size || me.page_granularity != vfin.page_granularity || me.large_page != VirtMem::large_page_size() ||
+        me.hardened != uint32_t(VirtMem::hardened_runtime_info().flags) || me.block_size != afin.block_size() || me.granularity != afin.granularity()) bad |= 4;
+    if (dfin == 0 && me.dual_state != 0) bad |= 8;      // dual mapping works in this environment, but not for the racing thread
+  }
   return bad;   // exit code
 }
 
@@ -53,10 +101,10 @@ int main(int argc, char** argv) {
   Args a(argc, argv);
   uint64_t trials = a.u64("trials", 200), seed = a.u64("seed", 1);
   Rng r(seed);
-  uint64_t mism = 0, threads_total = 0; std::string first;
+  uint64_t mism = 0, threads_total = 0, clean = 0; std::string first;
   for (uint64_t i = 0; i < trials; i++) {
     int n = int(2 + r.below(7));
-    int mask = int(r.below(1u << n));
+    int mask = int(r.below(1u << (n + 1)));
     threads_total += uint64_t(n);
     pid_t pid = fork();
     if (pid < 0) { fprintf(stderr, "fork failed\n"); return 2; }
@@ -67,13 +115,22 @@ int main(int argc, char** argv) {
     if (rc != 0) {
       mism++;
       if (first.empty()) {
-        char b[200];
-        snprintf(b, sizeof b, "trial %llu with %d threads: %s%s%s", (unsigned long long)i, n, (rc & 1) ? "CpuInfo::host() returned an incomplete description to a thread; " : "",
-                 (rc & 2) ? "a JitRuntime created by a thread carries other CPU features than the host; " : "", rc >= 100 ? "child died" : "");
+        char b[400];
+        snprintf(b, sizeof b, "trial %llu with %d threads: %s%s%s%s%s", (unsigned long long)i, n, (rc < 100 && (rc & 1)) ? "CpuInfo::host() returned an incomplete description to a thread; " : "",
+                 (rc < 100 && (rc & 2)) ? "a JitRuntime created by a thread carries other CPU features than the host; " : "",
+                 (rc < 100 && (rc & 4)) ? "a thread saw other VirtMem::info()/large_page_size()/hardened-runtime values or allocator block size/granularity than a later call returns; " : "",
+                 (rc < 100 && (rc & 8)) ? "the first dual-mapped allocation of a thread failed or lost its contents although dual mapping works afterwards; " : "",
+                 rc >= 100 ? "child died" : "");
         first = b;
       }
     }
+    else clean++;
   }
-  printf("{\"trials\":%llu,\"threads_total\":%llu,\"mismatches\":%llu,\"first\":%s}\n", (unsigned long long)trials, (unsigned long long)threads_total, (unsigned long long)mism, jstr(first).c_str());
+  // does dual mapping work here at all? (otherwise the dual part of every trial observed nothing)
+  int derr = 0;
+  int dual_works = dual_roundtrip(0, &derr) == 0;
+  printf("{\"trials\":%llu,\"threads_total\":%llu,\"mismatches\":%llu,\"first\":%s,\"vm_values_compared\":%llu,\"dual_allocs_in_racing_threads\":%llu,\"dual_mapping_works\":%d}\n",
+         (unsigned long long)trials, (unsigned long long)threads_total, (unsigned long long)mism, jstr(first).c_str(),
+         (unsigned long long)(threads_total * 8), (unsigned long long)threads_total, dual_works);
   return 0;
 }
